@@ -151,6 +151,21 @@ def run(ck):
                 thB.update(d.maketracerpreene(**thB))
                 d.Lij(*d.preene2betafree(kT0, **thB))
                 again = [np.array(x) for x in d.Lij(*d.preene2betafree(kT0, **th0))]
+                # (N) right after A: data that differ from A only by a finite-difference step (3e-6 in one barrier): must be treated as
+                # different data (no cache entry of A may be re-used): bare coefficient exact for N to 1e-9
+                thN = {k: np.array(v, dtype=float) for k, v in th0.items()}
+                thN["eneT0"][0] += 3e-6; thN.update(d.maketracerpreene(preV=thN["preV"], eneV=thN["eneV"], preT0=thN["preT0"], eneT0=thN["eneT0"]))
+                LN = [np.array(x) for x in d.Lij(*d.preene2betafree(kT0, **thN))]
+                wN = np.array([thN["preV"][d.invmap[i]] * np.exp(-thN["eneV"][d.invmap[i]] / kT0) for i in range(d.N)])
+                rN = [[pT * np.exp(-eT / kT0) / wN[i] for (i, j), dx in jl] for jl, pT, eT in zip(jn, thN["preT0"], thN["eneT0"])]
+                DN = gen.exact_unitcell_D(d.N, jn, wN / wN.sum(), rN, crys.dim)
+                eN = np.abs(LN[0] - DN).max() / np.abs(DN).max()
+                ck.case(key=("near", label, round(cut, 5), Nth), nontrivial=True, kind="near-equal-data-after-A")
+                if eN > 1e-9:
+                    ck.violation("data differing from the previous input by a finite-difference step (3e-6 in one barrier): L0vv differs from the exact bare "
+                                 "diffusivity of the NEW data by %.3g relative (cache entry of the old data re-used?)" % eN,
+                                 dict(doc0, thermo_N={k: np.asarray(v).tolist() for k, v in thN.items()}, L0vv_N=LN[0].tolist(), exact_bare_N=DN.tolist()),
+                                 key="c06-near-equal-data")
                 # (K) right after A: vacancy site energies shifted per Wyckoff set with every transition state following the mean of
                 # its end states (kinetically-resolved barriers): all SYMMETRIC rates equal those of A, site probabilities and escape
                 # rates do not.  The tracer identities must hold for K with K's own bare coefficient.
